@@ -307,8 +307,9 @@ int ubuf_pic_common_split_fields(struct ubuf *ubuf, struct ubuf **odd,
         return UBASE_ERR_ALLOC;
 
     *even = ubuf_dup(ubuf);
-    if (!*odd) {
+    if (!*even) {
         ubuf_free(*odd);
+        *odd = NULL;
         return UBASE_ERR_ALLOC;
     }
 
